@@ -149,8 +149,12 @@ impl ModelG {
                 let input = if *via == 2 { refmodel::eddsa::sha512(&[&b.0]) } else { b.a64() };
                 self.set(1, *dst, mr::from_uniform_bytes(&input), &mut o);
             }
-            Step::Bin { g, dst, a, b, sub, .. } => {
+            Step::Bin { g, dst, a, b, sub, via } => {
                 let (p, q) = (need!(*g, *a), need!(*g, *b));
+                if *via >= 4 && (*g != 0 || !q.is_torsion_free()) {
+                    // mixed EdwardsPoint / SubgroupPoint arithmetic needs a torsion-free right operand
+                    return Out::Skip;
+                }
                 let r = if *sub { p.sub(&q) } else { p.add(&q) };
                 self.set(*g, *dst, r, &mut o);
             }
@@ -192,9 +196,8 @@ impl ModelG {
                 self.set(0, *dst, base.mul_le(&sc::clamp(&k.a32())), &mut o);
             }
             Step::Table { g, dst, a, radix: _, s } => {
-                if !cfg!(feature = "tables") {
-                    return Out::Skip;
-                }
+                // (in builds without precomputed tables the same quantities are computed through the table-less
+                // entry points, so that plans and logs stay configuration-independent)
                 let p = need!(*g, *a);
                 o.b("tbl_base", &menc(*g, &p));
                 if *g == 0 {
@@ -280,6 +283,7 @@ impl ModelG {
                 let p = need!(*g, *a);
                 mobs(&mut o, *g, &p);
                 o.f("deep_ok", true);
+                o.f("is_identity", if *g == 0 { p.is_identity() } else { mr::encode(&p) == [0u8; 32] });
             }
             Step::Eq { g, a, b } => {
                 let (p, q) = (need!(*g, *a), need!(*g, *b));
@@ -642,7 +646,7 @@ macro_rules! common_ops {
                     None => $self.$file[*dst as usize % NREG] = None,
                 }
             }
-            Step::Pre { dst, entry, st, ss, ds, dh, d, .. } => {
+            Step::Pre { dst, entry, st, ss, ds, dh, d, it, .. } => {
                 if ss.len() > st.len() || ds.len() != dh.len() || (*entry == 0 && !ds.is_empty()) {
                     return Out::Skip;
                 }
@@ -667,14 +671,37 @@ macro_rules! common_ops {
                 set_dispatch(*d);
                 let pre = <$Pre>::new(statics.iter());
                 $o.n("len", pre.len() as u64);
-                let r: Option<$P> = match entry {
-                    0 => Some(pre.vartime_multiscalar_mul(sks.iter())),
-                    1 => {
+                let r: Option<$P> = match (entry, it) {
+                    (0, 0) => Some(pre.vartime_multiscalar_mul(sks.iter())),
+                    (0, _) => Some(pre.vartime_multiscalar_mul(sks.iter().filter(|_| true))),
+                    (1, 0) => {
                         let ps: Vec<$P> = dps.iter().map(|p| p.unwrap()).collect();
                         Some(pre.vartime_mixed_multiscalar_mul(sks.iter(), dks.iter(), ps.iter()))
                     }
-                    _ => {
+                    (1, 1) => {
+                        let ps: Vec<$P> = dps.iter().map(|p| p.unwrap()).collect();
+                        Some(pre.vartime_mixed_multiscalar_mul(sks.iter().filter(|_| true), dks.iter().filter(|_| true), ps.iter().filter(|_| true)))
+                    }
+                    (1, _) => {
+                        let ps: Vec<$P> = dps.iter().map(|p| p.unwrap()).collect();
+                        let h = dks.len() / 2;
+                        Some(pre.vartime_mixed_multiscalar_mul(
+                            sks.iter(),
+                            dks[..h].iter().chain(dks[h..].iter().filter(|_| true)),
+                            ps[..h].iter().chain(ps[h..].iter().filter(|_| true)),
+                        ))
+                    }
+                    (_, 0) => {
                         let r = pre.optional_mixed_multiscalar_mul(sks.iter(), dks.clone().into_iter(), dps.clone().into_iter());
+                        $o.f("some", r.is_some());
+                        r
+                    }
+                    (_, _) => {
+                        let r = pre.optional_mixed_multiscalar_mul(
+                            sks.iter().filter(|_| true),
+                            dks.clone().into_iter().filter(|_| true),
+                            dps.clone().into_iter().filter(|_| true),
+                        );
                         $o.f("some", r.is_some());
                         r
                     }
@@ -804,6 +831,42 @@ impl RealG {
             }};
         }
         match st {
+            // ---- mixed EdwardsPoint / SubgroupPoint arithmetic (group feature)
+            Step::Bin { g: 0, dst, a, b, sub, via } if *via >= 4 => {
+                use curve25519_dalek::edwards::SubgroupPoint;
+                use group::cofactor::CofactorGroup;
+                let (p, q) = (need_e!(*a), need_e!(*b));
+                let s: SubgroupPoint = match Option::from(CofactorGroup::into_subgroup(q)) {
+                    Some(s) => s,
+                    None => return Out::Skip,
+                };
+                let r: EdwardsPoint = match (*sub, *via) {
+                    (false, 4) => &p + &s,
+                    (false, 5) => p + s,
+                    (false, 6) => {
+                        let mut t = p;
+                        t += &s;
+                        t
+                    }
+                    (false, _) => match Option::<SubgroupPoint>::from(CofactorGroup::into_subgroup(p)) {
+                        // both operands in the subgroup type when possible
+                        Some(ps) => EdwardsPoint::from(&ps + &s),
+                        None => p + &s,
+                    },
+                    (true, 4) => &p - &s,
+                    (true, 5) => p - s,
+                    (true, 6) => {
+                        let mut t = p;
+                        t -= &s;
+                        t
+                    }
+                    (true, _) => match Option::<SubgroupPoint>::from(CofactorGroup::into_subgroup(p)) {
+                        Some(ps) => EdwardsPoint::from(&ps - &s),
+                        None => &p - s,
+                    },
+                };
+                set_e!(*dst, r);
+            }
             // ---- steps shared by both groups
             Step::Dec { g, .. }
             | Step::Const { g, .. }
@@ -932,14 +995,31 @@ impl RealG {
                 }
             }
             #[cfg(not(feature = "tables"))]
-            Step::Table { .. } => return Out::Skip,
+            Step::Table { g, dst, a, radix: _, s } => {
+                // no table types in this build: the same observations through the table-less entry points
+                let k = sc_real(s);
+                if *g == 0 {
+                    let p = need_e!(*a);
+                    o.b("tbl_base", p.compress().as_bytes());
+                    o.b("tbl_clamped", p.mul_clamped(s.b.a32()).compress().as_bytes());
+                    o.b("tbl_converted", (&p * &k).compress().as_bytes());
+                    set_e!(*dst, &k * &p);
+                } else {
+                    let p = need_r!(*a);
+                    o.b("tbl_base", p.compress().as_bytes());
+                    set_r!(*dst, &k * &p);
+                }
+            }
             Step::Cmp { g, a } => {
                 if *g == 0 {
                     let p = need_e!(*a);
                     robs_e(&mut o, &p);
                     // GroupEncoding must agree with compress
                     let ok = <EdwardsPoint as GroupEncoding>::to_bytes(&p) == p.compress().to_bytes();
-                    o.f("deep_ok", ok);
+                    let id1 = IsIdentity::is_identity(&p);
+                    let id2 = bool::from(Group::is_identity(&p));
+                    o.f("deep_ok", ok && id1 == id2);
+                    o.f("is_identity", id1);
                 } else {
                     let p = need_r!(*a);
                     robs_r(&mut o, &p);
@@ -950,7 +1030,10 @@ impl RealG {
                         Err(_) => false,
                     };
                     let ok2 = <RistrettoPoint as GroupEncoding>::to_bytes(&p) == p.compress().to_bytes();
-                    o.f("deep_ok", ok && ok2);
+                    let id1 = IsIdentity::is_identity(&p);
+                    let id2 = bool::from(Group::is_identity(&p));
+                    o.f("deep_ok", ok && ok2 && id1 == id2);
+                    o.f("is_identity", id1);
                 }
             }
             Step::Pred { a } => {
